@@ -1,15 +1,22 @@
 (* Properties/C12.v — pinned statements for C12: replacing the compiler binary invalidates its
-   results without a restart.  Model: Model/CompilerCache.v (`legacy = false` is the code after
-   the fix "key the server's compiler cache by requested path as well as resolved path").
+   results without a restart.  Model: Model/CompilerCache.v.  `VFixed` is the code with the three
+   C12 fixes (map keyed by requested AND resolved path; a registered rustup proxy re-validated —
+   not modelled; nothing memoised when the executable changed while it was being detected).
+   `VAsFound` is the code without the last one; Gen/C12Window.v says which of the two the tree is,
+   and C12_asfound_is_fixed_without_windows ties them together.
 
    Common premises, both BOOLEAN predicates on the history:
-     wf_history .. = true             the property's own premise: two requests that name the same
-                                      compiler path and see the same mtime there see the same bytes
+     wf_history .. = true             the property's own premise in its weakest form: a request that
+                                      finds, on arrival, the mtime under which the PREVIOUS request
+                                      for the same path-and-file was served, finds the same bytes
      collision_free_in_play .. = true the identity digest and the key hash do not collide on the
                                       binaries / sources the history touches
    `detect` (bytes -> identity digest, None = not a compiler) and `H` (identity, source -> key) are
    universally quantified.  Histories are arbitrary lists of Swap / Retarget / Remove / Touch /
-   Compile over an arbitrary initial file system, served by ONE server (no restart). *)
+   Compile / CompileW over an arbitrary initial file system, served by ONE server (no restart);
+   `CompileW p src env` is a request during whose compiler detection the environment does `env`
+   (the detection is not atomic: stat . probe . digest . record).  For such a request "the bytes at
+   the path" (e_cur) are those it was served under, i.e. after the window. *)
 From Coq Require Import List NArith Bool.
 From Sccache Require Import Model.CompilerCache Proofs.CompilerCache.
 Import ListNotations.
@@ -19,8 +26,8 @@ Local Open Scope N_scope.
    requested path (through links).  Needs no collision-freeness. *)
 Theorem C12_identity_is_current :
   forall (detect : N -> option N) (H : N -> N -> N) (f0 : fs) (ops : list op),
-    wf_history detect H false f0 ops = true ->
-    forall e, In e (exec detect H false (start f0) ops) ->
+    wf_history detect H VFixed f0 ops = true ->
+    forall e, In e (exec detect H VFixed (start f0) ops) ->
       identity_current detect e = true /\
       (forall id, e_id e = Some id -> exists b m, e_cur e = Some (b, m) /\ detect b = Some id) /\
       (forall b m id, e_cur e = Some (b, m) -> detect b = Some id ->
@@ -33,8 +40,8 @@ Print Assumptions C12_identity_is_current.
 Theorem C12_no_cross_binary_results :
   forall (detect : N -> option N) (H : N -> N -> N) (f0 : fs) (ops : list op),
     collision_free_in_play detect H f0 ops = true ->
-    wf_history detect H false f0 ops = true ->
-    forall e prod, In e (exec detect H false (start f0) ops) -> served e = Some prod ->
+    wf_history detect H VFixed f0 ops = true ->
+    forall e prod, In e (exec detect H VFixed (start f0) ops) -> served e = Some prod ->
       exists m, e_cur e = Some (prod, m).
 Proof.
   intros detect H f0 ops CF WF e prod I S. exact (no_cross detect H f0 ops WF e prod CF I S).
@@ -50,10 +57,10 @@ Theorem C12_swap_back :
   forall (detect : N -> option N) (H : N -> N -> N) (f0 : fs) (h1 h2 : list op) (p p' : path) (src : N),
     let ops := h1 ++ Compile p src :: h2 ++ [Compile p' src] in
     collision_free_in_play detect H f0 ops = true ->
-    wf_history detect H false f0 ops = true ->
+    wf_history detect H VFixed f0 ops = true ->
     forall e1 e2 A id m1 m2,
-      snd (step detect H false (final detect H false (start f0) h1) (Compile p src)) = Some e1 ->
-      snd (step detect H false (final detect H false (start f0) (h1 ++ Compile p src :: h2))
+      snd (step detect H VFixed (final detect H VFixed (start f0) h1) (Compile p src)) = Some e1 ->
+      snd (step detect H VFixed (final detect H VFixed (start f0) (h1 ++ Compile p src :: h2))
                 (Compile p' src)) = Some e2 ->
       detect A = Some id -> e_cur e1 = Some (A, m1) -> e_cur e2 = Some (A, m2) ->
       e_out e1 <> OFail /\ e_out e2 = OHit A.
@@ -68,9 +75,9 @@ Print Assumptions C12_swap_back.
 Theorem C12_distinct_binaries_never_share :
   forall (detect : N -> option N) (H : N -> N -> N) (f0 : fs) (ops : list op),
     collision_free_in_play detect H f0 ops = true ->
-    wf_history detect H false f0 ops = true ->
+    wf_history detect H VFixed f0 ops = true ->
     forall e1 e2 b1 m1 b2 m2 k1 k2,
-      In e1 (exec detect H false (start f0) ops) -> In e2 (exec detect H false (start f0) ops) ->
+      In e1 (exec detect H VFixed (start f0) ops) -> In e2 (exec detect H VFixed (start f0) ops) ->
       e_cur e1 = Some (b1, m1) -> e_cur e2 = Some (b2, m2) -> b1 <> b2 ->
       e_key e1 = Some k1 -> e_key e2 = Some k2 -> k1 <> k2.
 Proof.
@@ -84,36 +91,72 @@ Print Assumptions C12_distinct_binaries_never_share.
    between two binaries with equal mtimes — is served with the old identity and the old object. *)
 Theorem C12_same_mtime_refuted :
   (collision_free_in_play detect_w H_w [] ops_same_mtime = true /\
-   wf_history detect_w H_w false [] ops_same_mtime = false /\
+   wf_history detect_w H_w VFixed [] ops_same_mtime = false /\
    existsb (fun e => negb (identity_current detect_w e) && negb (producer_current e))
-           (exec detect_w H_w false (start []) ops_same_mtime) = true) /\
+           (exec detect_w H_w VFixed (start []) ops_same_mtime) = true) /\
   (collision_free_in_play detect_w H_w [] ops_same_mtime_link = true /\
-   wf_history detect_w H_w false [] ops_same_mtime_link = false /\
+   wf_history detect_w H_w VFixed [] ops_same_mtime_link = false /\
    existsb (fun e => negb (identity_current detect_w e) && negb (producer_current e))
-           (exec detect_w H_w false (start []) ops_same_mtime_link) = true).
+           (exec detect_w H_w VFixed (start []) ops_same_mtime_link) = true).
 Proof. exact (conj same_mtime_refuted same_mtime_link_refuted). Qed.
 Print Assumptions C12_same_mtime_refuted.
 
-(* The code AS FOUND (`legacy = true`, map keyed by the resolved path only) violates the property
+(* The code as first found (`VLegacy`, map keyed by the resolved path only) violates the property
    inside the premise: two links named gcc to one binary, the first one retargeted; the request
-   through the second link is keyed on the right identity but EXECUTES the first link's new target,
-   and the object is cached under the old binary's key.  Fixed (same history, legacy = false: every
-   request is right); the witness is corpus/C12/inproc.sx. *)
+   through the second link is keyed on the right identity but EXECUTES the first link's new target.
+   Fixed; the witness is corpus/C12/inproc.sx. *)
 Theorem C12_shared_entry_refuted :
   collision_free_in_play detect_w H_w [] ops_shared_entry = true /\
-  wf_history detect_w H_w true [] ops_shared_entry = true /\
+  wf_history detect_w H_w VLegacy [] ops_shared_entry = true /\
   existsb (fun e => identity_current detect_w e && negb (producer_current e))
-          (exec detect_w H_w true (start []) ops_shared_entry) = true /\
-  forallb (fun e => identity_current detect_w e && producer_current e)
-          (exec detect_w H_w false (start []) ops_shared_entry) = true.
+          (exec detect_w H_w VLegacy (start []) ops_shared_entry) = true /\
+  all_right VFixed ops_shared_entry = true.
 Proof. exact shared_entry_refuted. Qed.
 Print Assumptions C12_shared_entry_refuted.
 
-(* Non-vacuity: a history with a swap, a swap back, links and a non-compiler satisfies both
-   premises, and is served as the theorems say. *)
+(* The window.  (1) If the digest is taken when a detection starts and the mtime recorded is the one
+   read when it has finished (VEarlyLate), a swap while a detection is in flight leaves an entry
+   (old digest, new mtime): every later request is keyed on the old binary for good — inside the
+   premise; the same history is served correctly by VAsFound and VFixed.  (2) Memoising
+   unconditionally with the mtime read BEFORE the detection (VAsFound) breaks when the old file is
+   put back, with its original mtime, before any other request: the entry (old mtime, new digest)
+   is trusted for the old binary — inside the premise; VFixed (nothing memoised unless the mtime
+   after the detection is still the one read before) serves that history correctly, as the four
+   theorems above say it must. *)
+Theorem C12_window_refuted :
+  (collision_free_in_play detect_w H_w [] ops_window_swap = true /\
+   wf_history detect_w H_w VEarlyLate [] ops_window_swap = true /\
+   some_stale VEarlyLate ops_window_swap = true /\
+   all_right VAsFound ops_window_swap = true /\ all_right VFixed ops_window_swap = true) /\
+  (collision_free_in_play detect_w H_w [] ops_window_restore = true /\
+   wf_history detect_w H_w VAsFound [] ops_window_restore = true /\
+   some_stale VAsFound ops_window_restore = true /\
+   wf_history detect_w H_w VFixed [] ops_window_restore = true /\
+   all_right VFixed ops_window_restore = true).
+Proof. exact window_refuted. Qed.
+Print Assumptions C12_window_refuted.
+
+(* Without a window (no request whose detection overlaps a change of the file system) the re-stat
+   changes nothing: the code without the last fix behaves exactly like VFixed, so the four theorems
+   hold for it on such histories.  What it gets wrong is exactly the class of C12_window_refuted (2)
+   (known finding C12-K1 while the fix is not merged). *)
+Theorem C12_asfound_is_fixed_without_windows :
+  forall (detect : N -> option N) (H : N -> N -> N) (s : state) (ops : list op),
+    windowless ops = true ->
+    exec detect H VAsFound s ops = exec detect H VFixed s ops /\
+    final detect H VAsFound s ops = final detect H VFixed s ops.
+Proof. intros detect H s ops W. exact (windowless_same detect H ops s W). Qed.
+Print Assumptions C12_asfound_is_fixed_without_windows.
+
+(* Non-vacuity: a history with a swap, a swap back, links, a non-compiler and a detection window
+   during which the binary is replaced satisfies both premises and is served as the theorems say;
+   so does A -> B -> C -> B -> A with A and C sharing an mtime. *)
 Example C12_premises_nonvacuous :
   collision_free_in_play detect_w H_w [] ops_example = true /\
-  wf_history detect_w H_w false [] ops_example = true /\
-  map e_out (exec detect_w H_w false (start []) ops_example) =
-    [OMiss 1; OMiss 2; OHit 1; OHit 1; OUnsupported; OHit 2].
+  wf_history detect_w H_w VFixed [] ops_example = true /\
+  map e_out (exec detect_w H_w VFixed (start []) ops_example) =
+    [OMiss 1; OMiss 2; OHit 1; OHit 1; OUnsupported; OHit 2; OMiss 3; OMiss 2; OHit 2] /\
+  wf_history detect_w H_w VFixed [] ops_recycled_mtime = true /\
+  map e_out (exec detect_w H_w VFixed (start []) ops_recycled_mtime) =
+    [OMiss 1; OMiss 2; OMiss 3; OMiss 3; OMiss 2; OMiss 1; OHit 1].
 Proof. exact example_in_premise. Qed.
